@@ -6,7 +6,7 @@
    nothing is assumed about H. *)
 From DV Require Import Base.Prelude.
 From DV Require Model.NameM.
-From DV Require Import Model.TsigM Proofs.TsigSpec Proofs.TsigLemmas Proofs.TsigInj.
+From DV Require Import Model.TsigM Proofs.TsigSpec Proofs.TsigLemmas Proofs.TsigInj Proofs.TsigReader Proofs.TsigStream.
 Open Scope Z_scope.
 
 (* ---- the octets fed to the MAC are the RFC 8945 input ---- *)
@@ -202,6 +202,58 @@ Theorem bad_alg :
 Proof. exact bad_alg_lemma. Qed.
 Print Assumptions bad_alg.
 
+(* ---- the reader: a TSIG record that is not the last record is a format error ---- *)
+
+(* at the header of a TSIG record outside ADDITIONAL, or not last, or not class ANY, the reader
+   raises BadTSIG (a FormError) ... *)
+Theorem tsig_not_last_is_formerror :
+  forall H w kr rmac now multi section count i st np tp cp lp dp,
+    get_name w (length w) (r_pos st) = Ok np ->
+    get_uint w (length w) (snd np) 2 = Ok tp ->
+    get_uint w (length w) (snd tp) 2 = Ok cp ->
+    get_uint w (length w) (snd cp) 4 = Ok lp ->
+    get_uint w (length w) (snd lp) 2 = Ok dp ->
+    fst tp = TSIG ->
+    (section <> 3 \/ fst cp <> ANY \/ i <> count - 1) ->
+    get_rr H w kr rmac now multi section count i st = Lib eBadTSIG /\ is_formerror eBadTSIG = true.
+Proof. intros. split; [eapply get_rr_misplaced; eassumption | reflexivity]. Qed.
+Print Assumptions tsig_not_last_is_formerror.
+
+(* ... hence in every message that is read without error a TSIG record is the last one *)
+Theorem read_ok_tsig_is_last :
+  forall H w kr rmac ctx multi now m i r,
+    read H w kr rmac ctx multi now = Ok m ->
+    nth_error (m_recs m) i = Some r -> rec_type r = TSIG ->
+    i = (length (m_recs m) - 1)%nat /\ rec_section r = 3 /\ rec_class r = ANY.
+Proof. exact tsig_only_last. Qed.
+Print Assumptions read_ok_tsig_is_last.
+
+(* a message is read successfully only if dns.tsig.validate accepted its TSIG (keyring permitting);
+   a message without TSIG extends the running digest of a multi-message exchange by the whole wire *)
+Theorem read_accepts_only_validated :
+  forall H w kr rmac ctx multi now m,
+    read H w kr rmac ctx multi now = Ok m ->
+    exists body,
+      Forall not_tsig body /\
+      ((m_recs m = body /\ m_tsig m = None /\ m_had_tsig m = false
+        /\ m_ctx m = ctx_after_unsigned ctx multi w)
+       \/ (exists owner rd start,
+             m_recs m = body ++ [(3, TSIG, ANY, start)]
+             /\ m_tsig m = Some (owner, rd) /\ m_had_tsig m = true
+             /\ decided H w kr rmac now multi owner rd start ctx (m_ctx m))).
+Proof. exact read_ok. Qed.
+Print Assumptions read_accepts_only_validated.
+
+(* ---- multi-message exchanges with any subset of envelopes unsigned (RFC 8945 5.3.1) ---- *)
+Theorem read_stream_is_rfc :
+  forall H k rmac now ws ms ctx run,
+    ctx_matches k ctx run ->
+    Forall (fun w => all_bytes w = true) ws ->
+    read_stream H ws (KR_Key k) rmac ctx now = map Ok ms ->
+    stream_spec H k rmac now run ws ms.
+Proof. exact read_stream_is_rfc_lemma. Qed.
+Print Assumptions read_stream_is_rfc.
+
 (* ---- non-vacuity: a toy keyed hash, a 12-octet message, key "k." / hmac-sha256-128 ---- *)
 Definition exH (h : hashid) (k d : bytes) : bytes :=
   map (fun i => (fold_left Z.add (k ++ d) i * i) mod 256) [1; 2; 3; 4; 5; 6; 7; 8; 9; 10; 11; 12; 13; 14; 15; 16; 17; 18; 19; 20].
@@ -240,4 +292,36 @@ Example ex_multi_ok :
 Proof.
   eexists. eexists. split; [vm_compute; reflexivity|]. split; [vm_compute; reflexivity|].
   eexists. eexists. split; vm_compute; reflexivity.
+Qed.
+
+(* a TSIG record followed by another record *)
+Definition ex_signed : bytes :=
+  Eval vm_compute in
+    match sign_message exH exwire exkey (kname exkey) exrd 1000 [] None false with
+    | Ok (w, _, _) => w | _ => [] end.
+Example ex_not_last :
+  (exists rd', sign_message exH exwire exkey (kname exkey) exrd 1000 [] None false = Ok (ex_signed, rd', None))
+  /\ read exH (firstn 10 ex_signed ++ [0; 2] ++ skipn 12 ex_signed ++ [0; 255; 0; 0; 1; 0; 0; 0; 0; 0; 0])
+          (KR_Key exkey) [] None false 1000 = Lib eBadTSIG.
+Proof. split; [eexists; vm_compute; reflexivity | vm_compute; reflexivity]. Qed.
+
+(* three envelopes, the middle one sent without TSIG: signed by sign_stream, accepted by read_stream *)
+Definition oks {A} (l : list (res A)) : list A :=
+  flat_map (fun r => match r with Ok a => [a] | _ => [] end) l.
+Definition ex_ws : list bytes :=
+  Eval vm_compute in
+    oks (sign_stream exH [(exwire, Some (exrd, 1000)); (exwire, None); (exwire, Some (exrd, 1001))] exkey [9; 9] None).
+Definition ex_ms : list rmsg :=
+  Eval vm_compute in oks (read_stream exH ex_ws (KR_Key exkey) [9; 9] None 1000).
+
+Example ex_stream :
+  sign_stream exH [(exwire, Some (exrd, 1000)); (exwire, None); (exwire, Some (exrd, 1001))] exkey [9; 9] None
+    = map Ok ex_ws
+  /\ read_stream exH ex_ws (KR_Key exkey) [9; 9] None 1000 = map Ok ex_ms
+  /\ map m_had_tsig ex_ms = [true; false; true]
+  /\ Forall (fun w => all_bytes w = true) ex_ws.
+Proof.
+  split; [vm_compute; reflexivity|].
+  split; [vm_compute; reflexivity|]. split; [vm_compute; reflexivity|].
+  repeat constructor.
 Qed.
